@@ -91,6 +91,13 @@ Proof.
       * destruct (aget b c); cbn; [apply NoDup_keys_adel|]; assumption.
     + eapply mem_same_inv; [apply mem_event_op_same|]; assumption.
   - intros c o _ Ho. apply mem_event_op_same. assumption.
+  - (* keys stay *)
+    intros c o b0 _ Ho Hb0. destruct (lifecycle_write o) eqn:Hw.
+    + destruct o as [b m|b ty cl ho na da|b| | | | | | | | | | ]; cbn in Hw; try discriminate; cbn.
+      * apply aget_aset_stays. assumption.
+      * destruct (aget b c) as [[m es]|]; cbn; [apply aget_aset_stays|]; assumption.
+      * destruct Ho.
+    + eapply listing_same_stays; [apply mem_event_op_same; assumption|assumption].
   - (* create *)
     intros c b m _ Habs. exists (aset b (mem_create_meta b m, []) c), ONone, (mem_create_meta b m).
     split; [reflexivity|]. split; [apply mem_create_stored_as|]. apply aset_absent. assumption.
